@@ -99,12 +99,22 @@ def qs(rng):
         return rng.choice(WORDS) + rng.choice([" ", ",", "=", "-", ""]) + rng.choice(WORDS)
     if r < 0.85:
         return ""
-    if r < 0.9 or (r < 0.97 and new_literals()):
+    if r < 0.9 or (r < 0.95 and new_literals()):
         return literal_like(rng)
     if r < 0.92:
         # long (a value cut, capped or copied into a fixed buffer shows here), with leading / trailing blanks kept inside the quotes
         return rng.choice(["", " "]) + "".join(rng.choice("abcXYZ019 ,=-_/:.éß日😀") for _ in range(rng.choice([64, 130, 260, 600]))) + rng.choice(["", " "])
+    if r < 0.99:
+        # any printable ASCII character but the quote is an ordinary character of a quoted string (RFC 8216 4.2: no escapes) - in
+        # particular the ones that are special in OTHER syntaxes (backslash, apostrophe, percent, braces), also as the last or
+        # the first character
+        body = "".join(rng.choice(QS_ASCII) for _ in range(rng.randint(0, 6)))
+        edge = rng.choice("\\'%#&;:@{}[]()<>?!*+^`|~$,= ")
+        return rng.choice([body + edge, edge + body, edge, body + edge * 2, body + edge + body])
     return "".join(rng.choice("abcXYZ019 ,=-_/:.éß日😀") for _ in range(rng.randint(1, 12)))
+
+
+QS_ASCII = "".join(chr(c) for c in range(0x20, 0x7f) if chr(c) != '"')
 
 
 def rint(rng, hi=2**64 - 1):
@@ -364,6 +374,15 @@ def gen_media(rng, max_segments=8, plain=False, key_weight=0.35, allow_k1=False,
             rng.shuffle(tags)
         if rng.random() < 0.1 and not plain:
             tags.insert(rng.randint(0, len(tags)), "#EXT-X-" + rng.choice(["FOO", "CUSTOM:1,2", "ALLOW-CACHE:YES", "UNKNOWN-TAG:A=\"b\""])); hit("unknown-tag")
+        if not plain and seg and rng.random() < 0.5:
+            # RFC 8216 fixes no order among a segment's tags: the key lines may stand anywhere in front of the URI line (also
+            # behind the EXTINF line), in their own order
+            at = 0
+            for kl in seg:
+                at = rng.randint(at, len(tags))
+                tags.insert(at, kl)
+                at += 1
+            seg = []
         seg += tags
         seg.append(uri)
         body += seg
@@ -382,7 +401,7 @@ def gen_stream_data(rng, video_groups):
     if rng.random() < 0.4:
         p.append(("AVERAGE-BANDWIDTH", str(rint(rng))))
     if rng.random() < 0.5:
-        p.append(("CODECS", q(",".join(rng.choice(["avc1.4d401e", "mp4a.40.2", "hvc1.1.6.L93", "x y"]) for _ in range(rng.randint(1, 3))))))
+        p.append(("CODECS", q(",".join(rng.choice(["avc1.4d401e", "mp4a.40.2", "hvc1.1.6.L93", "x y", "", ""]) for _ in range(rng.randint(1, 4))))))
     if rng.random() < 0.4:
         p.append(("RESOLUTION", "%dx%d" % (rint(rng), rint(rng))))
     if rng.random() < 0.3:
